@@ -271,7 +271,8 @@ def _is_current_test(e, res):
     """leaf `<current system> is not None` -> 'T' (the T edge means: there is one); `is None` -> 'F'.
     The current system is self._current or, inside SetCurrent, the value being stored into it."""
     if isinstance(e, ast.Compare) and len(e.ops) == 1 and isinstance(e.comparators[0], ast.Constant) and e.comparators[0].value is None:
-        if res.term(e.left) in CURRENT_TERMS:
+        fres = getattr(res, "flowres", None)
+        if res.term(e.left) in CURRENT_TERMS or (fres is not None and fres.term(e.left) in CURRENT_TERMS):
             return "T" if isinstance(e.ops[0], ast.IsNot) else "F" if isinstance(e.ops[0], ast.Is) else None
     return None
 
@@ -280,6 +281,7 @@ def r3_pairing(rep, ctx):
     m = ctx.model
     fn = m.method(M, "SetCurrent")
     res = Resolver(m, fn, flow=False)
+    res.flowres = Resolver(m, fn)  # (tests of a local that holds the current system at that point)
     cfg = CFG(fn.node)
     stores = [n for n, f, k in _state_writes(m, fn) if f == "_current" and k == "store"]
     if not stores:
